@@ -65,27 +65,29 @@ var thePKI = func() *pki {
 }()
 
 type mxObs struct {
-	mu          sync.Mutex
-	dials       []string // "<fn> <addr>"
-	connects    []string // CONNECT targets seen by the http(s) proxy, with " auth=<value>"
-	socks       []string // targets seen by the socks5 proxy, with " user=<u> pass=<p>"
-	backendSNI  []string // SNI of TLS handshakes that reached the backend
-	backendTLS  int      // completed TLS handshakes at the backend
-	upgrades    int      // websocket requests that reached the backend
-	upgradeTLS  []bool   // were they inside TLS
-	proxyTLS    int
-	serverErrs  []string
+	mu         sync.Mutex
+	dials      []string // "<fn> <addr>"
+	connects   []string // CONNECT targets seen by the http(s) proxy, with " auth=<value>"
+	socks      []string // targets seen by the socks5 proxy, with " user=<u> pass=<p>"
+	backendSNI []string // SNI of TLS handshakes that reached the backend
+	backendTLS int      // completed TLS handshakes at the backend
+	upgrades   int      // websocket requests that reached the backend
+	upgradeTLS []bool   // were they inside TLS
+	proxyTLS   int
+	serverErrs []string
+	leftOpen   int // client-side ends of dialed connections that the Dialer never closed (counted when Dial returns)
+	selfClosed int // … and those it closed
 }
 
 func (o *mxObs) add(f func()) { o.mu.Lock(); f(); o.mu.Unlock() }
 
 type mxCfg struct {
-	proxy string // "" | http | https | socks5
-	wss   bool
+	proxy          string // "" | http | https | socks5
+	wss            bool
 	nd, ndc, ndtls bool
-	cred  string // "" | user | userpass | userempty
-	cert  string // ok | other | untrusted
-	skipVerify bool
+	cred           string // "" | user | userpass | userempty
+	cert           string // ok | other | untrusted
+	skipVerify     bool
 }
 
 func serveBackend(c net.Conn, o *mxObs, cfg mxCfg, done *sync.WaitGroup) {
@@ -104,7 +106,7 @@ func serveBackend(c net.Conn, o *mxObs, cfg mxCfg, done *sync.WaitGroup) {
 			o.add(func() { o.backendSNI = append(o.backendSNI, h.ServerName) })
 			return nil, nil
 		}})
-		tc.SetDeadline(time.Now().Add(3 * time.Second))
+		tc.SetDeadline(time.Now().Add(30 * time.Second))
 		if err := tc.Handshake(); err != nil {
 			o.add(func() { o.serverErrs = append(o.serverErrs, "backend tls: "+err.Error()) })
 			return
@@ -113,7 +115,7 @@ func serveBackend(c net.Conn, o *mxObs, cfg mxCfg, done *sync.WaitGroup) {
 		c = tc
 		inTLS = true
 	}
-	c.SetDeadline(time.Now().Add(3 * time.Second))
+	c.SetDeadline(time.Now().Add(30 * time.Second))
 	br := bufio.NewReader(c)
 	req, err := http.ReadRequest(br)
 	if err != nil {
@@ -127,7 +129,7 @@ func serveBackend(c net.Conn, o *mxObs, cfg mxCfg, done *sync.WaitGroup) {
 func serveProxy(c net.Conn, o *mxObs, cfg mxCfg, done *sync.WaitGroup) {
 	if cfg.proxy == "https" {
 		tc := tls.Server(c, &tls.Config{Certificates: []tls.Certificate{thePKI.proxyOK}})
-		tc.SetDeadline(time.Now().Add(3 * time.Second))
+		tc.SetDeadline(time.Now().Add(30 * time.Second))
 		if err := tc.Handshake(); err != nil {
 			o.add(func() { o.serverErrs = append(o.serverErrs, "proxy tls: "+err.Error()) })
 			c.Close()
@@ -137,7 +139,7 @@ func serveProxy(c net.Conn, o *mxObs, cfg mxCfg, done *sync.WaitGroup) {
 		o.add(func() { o.proxyTLS++ })
 		c = tc
 	}
-	c.SetDeadline(time.Now().Add(3 * time.Second))
+	c.SetDeadline(time.Now().Add(30 * time.Second))
 	if cfg.proxy == "socks5" {
 		serveSocks(c, o, cfg, done)
 		return
@@ -225,7 +227,9 @@ func serveSocks(c net.Conn, o *mxObs, cfg mxCfg, done *sync.WaitGroup) {
 	pb := make([]byte, 2)
 	io.ReadFull(c, pb)
 	target = fmt.Sprintf("%s:%d", target, int(pb[0])<<8|int(pb[1]))
-	o.add(func() { o.socks = append(o.socks, fmt.Sprintf("%s user=%s pass=%s auth=%v", target, user, pass, useAuth)) })
+	o.add(func() {
+		o.socks = append(o.socks, fmt.Sprintf("%s user=%s pass=%s auth=%v", target, user, pass, useAuth))
+	})
 	c.Write([]byte{5, 0, 0, 1, 0, 0, 0, 0, 0, 0})
 	c.SetDeadline(time.Time{})
 	serveBackend(c, o, cfg, done)
@@ -258,7 +262,7 @@ func runMatrixCell(cfg mxCfg) (o *mxObs, conn *websocket.Conn, err error, panick
 		}
 		return cl, nil
 	}
-	d := &websocket.Dialer{HandshakeTimeout: 4 * time.Second}
+	d := &websocket.Dialer{HandshakeTimeout: 30 * time.Second}
 	d.TLSClientConfig = &tls.Config{RootCAs: thePKI.pool, InsecureSkipVerify: cfg.skipVerify}
 	if cfg.nd {
 		d.NetDial = func(network, addr string) (net.Conn, error) { return pipeTo("ND", addr) }
@@ -306,6 +310,13 @@ func runMatrixCell(cfg mxCfg) (o *mxObs, conn *websocket.Conn, err error, panick
 		}()
 		conn, _, err = d.Dial(u, nil)
 	}()
+	for i := 0; i < len(raws); i += 2 {
+		if raws[i].(*aconn).closedHere() {
+			o.selfClosed++
+		} else {
+			o.leftOpen++
+		}
+	}
 	// close the raw pipe ends: closing through nested tls.Conns would wait for close_notify exchanges
 	// that a synchronous net.Pipe cannot complete
 	for _, rc := range raws {
@@ -393,6 +404,13 @@ func runMatrixScenario(seed int64, idx int) *scenario {
 	sc.tag("proxy:" + orDash(cfg.proxy))
 	// ---- oracle (independent of the model)
 	okDial := err == nil && conn != nil
+	// C16: a failed Dial leaves no dialed connection open; a successful one keeps exactly its own
+	if !okDial && o.leftOpen > 0 {
+		sc.violate("Dial failed (%v) but left %d of %d dialed network connections open", err, o.leftOpen, o.leftOpen+o.selfClosed)
+	}
+	if okDial && (o.leftOpen != 1 || o.selfClosed != 0) {
+		sc.violate("successful Dial: %d dialed connections open, %d closed; expected exactly its own one open", o.leftOpen, o.selfClosed)
+	}
 	if cfg.proxy != "" {
 		wantAddr := map[string]string{"http": "proxy.test:8080", "https": "proxy.test:8443", "socks5": "proxy.test:1080"}[cfg.proxy]
 		for _, dl := range o.dials {
@@ -497,7 +515,10 @@ type aconn struct {
 	rd, wr   *aq
 	deadline time.Time
 	dmu      sync.Mutex
+	self     bool // Close was called on this end
 }
+
+func (c *aconn) closedHere() bool { c.dmu.Lock(); defer c.dmu.Unlock(); return c.self }
 
 func asyncPipe() (net.Conn, net.Conn) {
 	a, b := newAQ(), newAQ()
@@ -545,6 +566,9 @@ func (c *aconn) Write(p []byte) (int, error) {
 }
 
 func (c *aconn) Close() error {
+	c.dmu.Lock()
+	c.self = true
+	c.dmu.Unlock()
 	for _, q := range []*aq{c.rd, c.wr} {
 		q.mu.Lock()
 		q.closed = true
